@@ -24,7 +24,7 @@ checks = {
    "trusted: program-order level only (instruction-level reordering around the counter read is outside a simulator that replaces the read by a call); the virtual counter hook H5; MockAlloc",
    SIM + "seeded schedule search with scripted allocator operations; event-order oracle + refinement of per-sample allocation figures against a reference tally", "§4.C02"),
  "C03": ("exploration",
-   "seeded search over (n, s, T, bench|test, entry point, max_time=0 / MAX corners) x schedules; conservation oracle: per-thread call and sample counts equal the closed form s*ceil(n/T), stored samples T*ceil(n/T), reported samples/iters consistent, nothing in test mode beyond one call per thread, nothing at all for n=0 / s=0 / max_time=0.",
+   "seeded search over (n, s, T, bench|test, entry point, max_time=0 / MAX corners) x clock anomalies (stall, forward / backward jump, zero-cost calls: no limit is reached, so the counts must not change) x schedules; conservation oracle: per-thread call and sample counts equal the closed form s*ceil(n/T), stored samples T*ceil(n/T), reported samples/iters consistent, nothing in test mode beyond one call per thread, nothing at all for n=0 / s=0 / max_time=0.",
    "trusted: options are fed through BenchOptions directly (option resolution is C15, not applicable); dsim pool/barrier models",
    SIM + "seeded schedule search with a conservation (exact count) oracle over the recorded history", "§4.C03"),
  "C04": ("exploration",
@@ -36,11 +36,11 @@ checks = {
    "trusted: f64 figures compared with 1e-9 relative tolerance; glyphs/format of the row are C18/C20 (not applicable)",
    SIM + "scripted clock / allocator / counter histories through the real loop; refinement of Stats against a reference order-statistics model", "§4.C05"),
  "C06": ("exploration",
-   "seeded search over pool histories x schedules x panic subsets x spurious wake-ups, running the real ThreadPool code under the dsim scheduler; oracles over the recorded history: exactly-once per index, thread identity, return-after-all-calls (also when broadcast unwinds), vector-clock happens-before at return, result slots (result type whose None is not the all-zero pattern), spawn conservation; in-run frame-liveness monitor stated on the caller's stack frames (a thread about to operate on memory of a returned broadcast call's frames is stopped before the operation). Sampling (evidence, not proof); SC interleavings with an HB audit instead of weak-memory execution.",
+   "seeded search over pool histories (issued by one caller, by different callers one after the other, or by 2-3 callers at the same time) x schedules x panic subsets x spurious wake-ups, running the real ThreadPool code under the dsim scheduler; oracles over the recorded history: exactly-once per index, thread identity, return-after-all-calls (also when broadcast unwinds), vector-clock happens-before at return, result slots (result type whose None is not the all-zero pattern), spawn conservation; in-run frame-liveness monitor stated on the caller's stack frames (a thread about to operate on memory of a returned broadcast call's frames is stopped before the operation). Sampling (evidence, not proof); SC interleavings with an HB audit instead of weak-memory execution.",
    "trusted: dsim's models of Mutex / sync_channel(0) / atomics / park-unpark / spawn (documented std semantics only), the C++20 release-sequence rules in the vector-clock audit, preemption only at shim operations and probes",
    SIM + "seeded schedule search + fault injection (task panics incl. a payload whose destructor panics, spurious park / condvar wake-ups, spurious compare_exchange_weak failures, starvation) with history oracles and happens-before audit", "§4.C06"),
  "C07": ("exploration",
-   "same engine, longer growing/shrinking histories; bounded liveness oracle: no deadlock state, no step-budget overrun, no abort, bounded completion after the last fault, every worker exits after pool drop; probes confirm the racy windows (zero found without parking, parked-and-woken, stale token, woke with count > 0) were hit.",
+   "same engine, longer growing/shrinking histories incl. concurrent callers; bounded liveness oracle: no deadlock state, no step-budget overrun, no abort, bounded completion after the last fault, every worker exits after pool drop; probes confirm the racy windows (zero found without parking, parked-and-woken, stale token, woke with count > 0) were hit.",
    "trusted: dsim's park/unpark token model and channel-disconnect model; liveness is bounded (20 000 scheduling steps per run), not unbounded",
    SIM + "seeded schedule search + fault injection with bounded-liveness oracle (deadlock / lost wake-up / worker leak detection)", "§4.C07"),
  "C08": ("exploration",
